@@ -7,13 +7,14 @@ import PraatModel.Props.C14
 # C11 / C10 / C09 on POINT tiers — functional specifications of insertEntry, deleteEntry, union, appendTier
 
 Exact arithmetic.  The receiver is a well-formed point tier (`PTier.WF`: sorted by time, ties by label; inside the span;
-stripped labels).  A well-formed point tier MAY hold several points at one time (the constructor accepts them), and the
-code looks at the FIRST of them only.  Every statement below therefore says precisely which point is touched
-(`old`, the first point at the time of the new one — in a well-formed tier the one with the least label,
-`first_is_least`), and the clauses of the property that speak of "the" point at a time are proved under the explicit
-hypothesis `TimesNodup` (at most one point per time), which every insert/delete history preserves (`pirun_timesNodup`).
-Where the property as worded fails on tiers with coinciding times, a `…_counterexample` is proved (each replayed on
-the code).
+stripped labels).  A well-formed point tier MAY hold several points at one time (the constructor accepts them).  Since
+the repair A24 in /repo (`PointTier.insertEntry` used to stop at the FIRST point at the insertion time; proving these
+specifications showed that the property's wording then needed the hypothesis `TimesNodup`), EVERY point at the insertion
+time collides: `replace` removes all of them, `merge` joins all their labels (in list order, i.e. ascending label) and
+then the new label.  The specifications below hold on every well-formed tier without any hypothesis on coinciding
+times; `pinsert_collision_regression` and `punion_dup_regression` are the former counterexamples, now positive.
+`TimesNodup` (at most one point per time) is still an invariant of every insert/delete history (`pirun_timesNodup`) and
+the hypothesis under which a tier is a finite map time ↦ label (`pirun_labelAt`).
 -/
 namespace C11
 
@@ -69,7 +70,7 @@ theorem TimesNodup.sublist {ps ps' : List (Pt Int)} (h : TimesNodup ps) (hs : ps
 theorem TimesNodup.perm {ps ps' : List (Pt Int)} (h : TimesNodup ps) (hp : ps'.Perm ps) : TimesNodup ps' :=
   (hp.map _).nodup_iff.2 h
 
-/-- the first point at time `a` (what the loop of `insertEntry` stops at) -/
+/-- the first point at time `a` (its label is what `labelAtP` reads; with at most one point per time, THE point there) -/
 def firstAt (ps : List (Pt Int)) (a : Int) : Option (Pt Int) := ps.find? (fun p => p.t == a)
 
 theorem firstAt_none {ps : List (Pt Int)} {a : Int} : firstAt ps a = none ↔ ∀ p ∈ ps, p.t ≠ a := by
@@ -135,24 +136,94 @@ theorem firstAt_congr {ps ps' : List (Pt Int)} (hs : ps.Pairwise (fun a b => Pt.
       (first_is_least hs' h' o ((hmem o hoa).1 ho) hoa)
     rw [h', e]
 
-/-! ## insertEntry as a function on the list, and the span update -/
-
-theorem pinsert_unfold (t : PTier Int) (x : Pt Int) :
-    (firstAt t.ps x.t = none → ∀ mode,
-      t.insertEntry x mode = .ok (growSpanP t (sortPts (t.ps ++ [⟨x.t, pyStrip x.l⟩])))) ∧
-    (∀ old, firstAt t.ps x.t = some old →
-      t.insertEntry x .replace = .ok (growSpanP t (sortPts (t.ps.erase old ++ [⟨x.t, pyStrip x.l⟩]))) ∧
-      t.insertEntry x .merge =
-        .ok (growSpanP t (sortPts (t.ps.erase old ++ [⟨x.t, pyJoin "-" [old.l, pyStrip x.l]⟩]))) ∧
-      t.insertEntry x .error = .error .CollisionError) := by
+theorem TimesNodup.split {l1 l2 : List (Pt Int)} {b : Pt Int} (h : TimesNodup (l1 ++ b :: l2)) :
+    (∀ q ∈ l1, q.t ≠ b.t) ∧ (∀ q ∈ l2, q.t ≠ b.t) := by
+  have hcount := h.count_le_one b
+  rw [List.count_append, List.count_cons_self] at hcount
   constructor
-  · intro h mode
-    exact pinsert_nocollision t x mode (firstAt_none.1 h)
-  · intro old h
-    have hd := deletePt_of_mem t.ps old (firstAt_some h).1
-    unfold firstAt at h
-    unfold PTier.insertEntry
-    simp [h, hd, bind, Except.bind, pure, Except.pure, throw, throwThe, MonadExceptOf.throw]
+  · intro q hq e
+    have : q = b := h.eq_of_time (List.mem_append_left _ hq) (by simp) e
+    subst this
+    have := List.count_pos_iff.2 hq
+    omega
+  · intro q hq e
+    have : q = b := h.eq_of_time (List.mem_append_right _ (List.mem_cons_of_mem _ hq)) (by simp) e
+    subst this
+    have := List.count_pos_iff.2 hq
+    omega
+
+/-! ## the points at a time and the points off a time -/
+
+theorem mem_off {ps : List (Pt Int)} {a : Int} {p : Pt Int} :
+    p ∈ ps.filter (fun p => !(p.t == a)) ↔ p ∈ ps ∧ p.t ≠ a := by
+  simp [List.mem_filter]
+
+theorem mem_at {ps : List (Pt Int)} {a : Int} {p : Pt Int} :
+    p ∈ ps.filter (fun p => p.t == a) ↔ p ∈ ps ∧ p.t = a := by
+  simp [List.mem_filter]
+
+theorem at_nil {ps : List (Pt Int)} {a : Int} : ps.filter (fun p => p.t == a) = [] ↔ ∀ p ∈ ps, p.t ≠ a := by
+  rw [List.filter_eq_nil_iff]
+  constructor <;> intro h p hp <;> simpa using h p hp
+
+theorem at_ne_nil {ps : List (Pt Int)} {a : Int} : ps.filter (fun p => p.t == a) ≠ [] ↔ ∃ p ∈ ps, p.t = a := by
+  constructor
+  · intro h
+    obtain ⟨p, hp⟩ := List.exists_mem_of_ne_nil _ h
+    exact ⟨p, (mem_at.1 hp).1, (mem_at.1 hp).2⟩
+  · rintro ⟨p, hp, hpa⟩ h
+    exact at_nil.1 h p hp hpa
+
+theorem off_self {ps : List (Pt Int)} {a : Int} (h : ∀ p ∈ ps, p.t ≠ a) : ps.filter (fun p => !(p.t == a)) = ps := by
+  rw [List.filter_eq_self]; intro p hp; simpa using h p hp
+
+theorem count_off (ps : List (Pt Int)) (a : Int) (p : Pt Int) :
+    (ps.filter (fun p => !(p.t == a))).count p = if p.t = a then 0 else ps.count p := by
+  by_cases h : p.t = a
+  · rw [if_pos h]; apply List.count_eq_zero_of_not_mem; intro hm; exact (mem_off.1 hm).2 h
+  · rw [if_neg h]; exact List.count_filter (by simpa using h)
+
+theorem count_at (ps : List (Pt Int)) (a : Int) (p : Pt Int) :
+    (ps.filter (fun p => p.t == a)).count p = if p.t = a then ps.count p else 0 := by
+  by_cases h : p.t = a
+  · rw [if_pos h]; exact List.count_filter (by simpa using h)
+  · rw [if_neg h]; apply List.count_eq_zero_of_not_mem; intro hm; exact h (mem_at.1 hm).2
+
+/-- with at most one point per time, the points at the time of a member are that member alone -/
+theorem TimesNodup.filter_at {ps : List (Pt Int)} (h : TimesNodup ps) {b : Pt Int} (hb : b ∈ ps) :
+    ps.filter (fun p => p.t == b.t) = [b] := by
+  obtain ⟨l1, l2, hsplit⟩ := List.append_of_mem hb
+  rw [hsplit] at h ⊢
+  obtain ⟨h1, h2⟩ := h.split
+  rw [List.filter_append, List.filter_cons, at_nil.2 h1, at_nil.2 h2]
+  simp
+
+/-- two sorted lists with the same points at time `a` list them in the same order -/
+theorem filter_at_congr {ps ps' : List (Pt Int)} (hs : ps.Pairwise (fun a b => Pt.le a b = true))
+    (hs' : ps'.Pairwise (fun a b => Pt.le a b = true)) (a : Int)
+    (hc : ∀ p : Pt Int, p.t = a → ps.count p = ps'.count p) :
+    ps.filter (fun p => p.t == a) = ps'.filter (fun p => p.t == a) := by
+  apply sorted_perm_unique (hs.sublist List.filter_sublist) (hs'.sublist List.filter_sublist)
+  rw [List.perm_iff_count]
+  intro p
+  rw [count_at, count_at]
+  split
+  · next h => exact hc p h
+  · rfl
+
+/-- the labels of the points at one time stand in ascending order in a sorted list -/
+theorem labels_at_sorted {ps : List (Pt Int)} (hs : ps.Pairwise (fun a b => Pt.le a b = true)) (a : Int) :
+    ((ps.filter (fun p => p.t == a)).map (·.l)).Pairwise (· ≤ ·) := by
+  rw [List.pairwise_map]
+  refine (hs.sublist List.filter_sublist).imp_of_mem ?_
+  intro p q hp hq hle
+  have e1 := (mem_at.1 hp).2
+  have e2 := (mem_at.1 hq).2
+  simp only [Pt.le] at hle
+  rw [if_neg (by omega), if_neg (by omega)] at hle
+  simpa using hle
+
+/-! ## insertEntry as a function on the list, and the span update -/
 
 /-- the span after `insertEntry`: everything but the new point `y` was inside the old span, so the span grows to
 `y.t` and no further -/
@@ -215,6 +286,111 @@ theorem count_append_single (ps : List (Pt Int)) (y p : Pt Int) :
   · have : (y == p) = false := by simpa using (Ne.symm h)
     simp [this, h]
 
+/-- THE place of a point `z` among the points of a sorted list that are not at its time -/
+theorem sorted_place (ps : List (Pt Int)) (hs : ps.Pairwise (fun a b => Pt.le a b = true)) (z : Pt Int)
+    (l : List (Pt Int)) (hl : l.Pairwise (fun a b => Pt.le a b = true))
+    (hp : l.Perm (ps.filter (fun p => !(p.t == z.t)) ++ [z])) :
+    l = ps.filter (fun p => decide (p.t < z.t)) ++ z :: ps.filter (fun p => decide (z.t < p.t)) := by
+  apply sorted_perm_unique hl _ (hp.trans _)
+  · rw [List.pairwise_append]
+    refine ⟨hs.sublist List.filter_sublist, ?_, ?_⟩
+    · rw [List.pairwise_cons]
+      refine ⟨?_, hs.sublist List.filter_sublist⟩
+      intro b hb
+      have := (List.mem_filter.1 hb).2
+      exact Pt.le_of_lt_time (by simpa using this)
+    · intro a ha b hb
+      have h1 : a.t < z.t := by simpa using (List.mem_filter.1 ha).2
+      rcases List.mem_cons.1 hb with rfl | hb'
+      · exact Pt.le_of_lt_time h1
+      · have h2 : z.t < b.t := by simpa using (List.mem_filter.1 hb').2
+        exact Pt.le_of_lt_time (by omega)
+  · have e1 : ps.filter (fun p => decide (p.t < z.t)) =
+        (ps.filter (fun p => !(p.t == z.t))).filter (fun p => decide (p.t < z.t)) := by
+      rw [List.filter_filter]
+      apply List.filter_congr
+      intro p _
+      by_cases h : p.t < z.t
+      · have : p.t ≠ z.t := by omega
+        simp [h, this]
+      · simp [h]
+    have e2 : ps.filter (fun p => decide (z.t < p.t)) =
+        (ps.filter (fun p => !(p.t == z.t))).filter (fun p => !decide (p.t < z.t)) := by
+      rw [List.filter_filter]
+      apply List.filter_congr
+      intro p _
+      by_cases h : z.t < p.t
+      · have h1 : ¬ p.t < z.t := by omega
+        have h2 : p.t ≠ z.t := by omega
+        simp [h, h1, h2]
+      · by_cases h' : p.t < z.t
+        · simp [h, h']
+        · have : p.t = z.t := by omega
+          simp [this]
+    rw [e1, e2]
+    refine List.Perm.trans ?_ (List.perm_middle).symm
+    refine List.Perm.trans (List.perm_append_singleton _ _) ?_
+    exact List.Perm.cons _ (List.filter_append_perm _ _).symm
+
+/-- the common end of all successful branches of `insertEntry`: the points off the insertion time plus one stripped point
+`z` at that time, sorted, span grown to `z.t` -/
+theorem insert_core (t : PTier Int) (hwf : t.WF) (z : Pt Int) (hzs : pyStrip z.l = z.l) (T : PTier Int)
+    (hT : T = growSpanP t (sortPts (t.ps.filter (fun p => !(p.t == z.t)) ++ [z]))) :
+    T.WF ∧ T.name = t.name ∧
+    T.ps.Perm (t.ps.filter (fun p => !(p.t == z.t)) ++ [z]) ∧
+    T.ps.Pairwise (fun a b => Pt.le a b = true) ∧
+    T.ps = t.ps.filter (fun p => decide (p.t < z.t)) ++ z :: t.ps.filter (fun p => decide (z.t < p.t)) ∧
+    (∀ p, p ∈ T.ps ↔ (p ∈ t.ps ∧ p.t ≠ z.t) ∨ p = z) ∧
+    (∀ p, T.ps.count p = (if p.t = z.t then 0 else t.ps.count p) + if p = z then 1 else 0) ∧
+    T.ps.filter (fun p => p.t == z.t) = [z] ∧
+    (T.ps.map (·.t)).Perm ((t.ps.filter (fun p => !(p.t == z.t))).map (·.t) ++ [z.t]) ∧
+    T.lo = min t.lo z.t ∧ T.hi = max t.hi z.t := by
+  subst hT
+  have hfin := finish_pinsert t hwf (t.ps.filter (fun p => !(p.t == z.t))) z (fun p hp => (mem_off.1 hp).1) hzs
+  obtain ⟨hw, hn, hp, hs, hlo, hhi⟩ := hfin
+  refine ⟨hw, hn, hp, hs, sorted_place t.ps hwf.sorted z _ hs hp, ?_, ?_, ?_, ?_, hlo, hhi⟩
+  · intro p
+    rw [hp.mem_iff, List.mem_append, mem_off, List.mem_singleton]
+  · intro p
+    rw [hp.count_eq p, count_append_single, count_off]
+  · rw [← List.perm_singleton]
+    refine (hp.filter _).trans ?_
+    rw [List.filter_append]
+    have e1 : (t.ps.filter (fun p => !(p.t == z.t))).filter (fun p => p.t == z.t) = [] := by
+      rw [at_nil]; intro p hp; exact (mem_off.1 hp).2
+    rw [e1]
+    simp
+  · simpa using hp.map (·.t)
+
+/-- EVERY successful `insertEntry` (all modes, collision or not) has this form: the points off the insertion time, plus
+one stripped point at that time -/
+theorem pinsert_ok_form (t : PTier Int) (hwf : t.WF) (x : Pt Int) (m : InsMode) (t' : PTier Int)
+    (h : t.insertEntry x m = .ok t') :
+    ∃ z : Pt Int, z.t = x.t ∧ pyStrip z.l = z.l ∧
+      t' = growSpanP t (sortPts (t.ps.filter (fun p => !(p.t == z.t)) ++ [z])) := by
+  have hx : pyStrip (pyStrip x.l) = pyStrip x.l := pyStrip_idem _
+  by_cases hml : t.ps.filter (fun p => p.t == x.t) = []
+  · rw [(C05.pinsert_unfold t x).1 hml m] at h
+    simp only [Except.ok.injEq] at h
+    refine ⟨⟨x.t, pyStrip x.l⟩, rfl, hx, ?_⟩
+    rw [off_self (at_nil.1 hml)]
+    exact h.symm
+  · obtain ⟨h1, h2, h3⟩ := (C05.pinsert_unfold t x).2 hml
+    cases m with
+    | error => rw [h3] at h; cases h
+    | replace =>
+      rw [h1] at h; simp only [Except.ok.injEq] at h
+      exact ⟨⟨x.t, pyStrip x.l⟩, rfl, hx, h.symm⟩
+    | merge =>
+      rw [h2] at h; simp only [Except.ok.injEq] at h
+      refine ⟨⟨x.t, pyJoin "-" ((t.ps.filter (fun p => p.t == x.t)).map (·.l) ++ [pyStrip x.l])⟩, rfl, ?_, h.symm⟩
+      apply pyStrip_pyJoin
+      intro l hl
+      rcases List.mem_append.1 hl with hl' | hl'
+      · obtain ⟨p, hp, rfl⟩ := List.mem_map.1 hl'
+        exact hwf.stripped p (mem_at.1 hp).1
+      · simp only [List.mem_singleton] at hl'; subst hl'; exact hx
+
 /-! ## 1. no collision -/
 
 /-- **no point at that time** (any mode): the stripped point is put at its place in time order, every old point is
@@ -229,7 +405,7 @@ theorem pinsert_nocollision_spec (t : PTier Int) (hwf : t.WF) (x : Pt Int) (mode
       (∀ p, t'.ps.count p = t.ps.count p + if p = ⟨x.t, pyStrip x.l⟩ then 1 else 0) ∧
       t'.lo = min t.lo x.t ∧ t'.hi = max t.hi x.t := by
   have hfin := finish_pinsert t hwf t.ps ⟨x.t, pyStrip x.l⟩ (fun _ h => h) (pyStrip_idem _)
-  refine ⟨_, (pinsert_unfold t x).1 (firstAt_none.2 hfree) mode, hfin.1, hfin.2.1, hfin.2.2.1, hfin.2.2.2.1, ?_,
+  refine ⟨_, (C05.pinsert_unfold t x).1 (at_nil.2 hfree) mode, hfin.1, hfin.2.1, hfin.2.2.1, hfin.2.2.2.1, ?_,
     ?_, hfin.2.2.2.2⟩
   · -- the explicit place: both sides are sorted arrangements of the same points
     apply sorted_perm_unique hfin.2.2.2.1 _ (hfin.2.2.1.trans _)
@@ -275,139 +451,97 @@ theorem pinsert_error_spec (t : PTier Int) (x : Pt Int) :
 
 /-! ## 3./4. collision, modes `replace` and `merge` -/
 
-theorem count_erase_of_time_ne (ps : List (Pt Int)) (old p : Pt Int) (h : p.t ≠ old.t) :
-    (ps.erase old).count p = ps.count p := by
-  rw [List.count_erase]
-  have : (old == p) = false := by
-    simp only [beq_eq_false_iff_ne, ne_eq]
-    intro e; subst e; exact h rfl
-  simp [this]
-
-/-- what both collision branches do, for any stripped replacement `z` put at the time of the new point -/
-theorem collide_spec (t : PTier Int) (hwf : t.WF) (a : Int) (old z : Pt Int) (hold : firstAt t.ps a = some old)
-    (hz : z.t = a) (hzs : pyStrip z.l = z.l) :
-    (growSpanP t (sortPts (t.ps.erase old ++ [z]))).WF ∧
-    (growSpanP t (sortPts (t.ps.erase old ++ [z]))).name = t.name ∧
-    (growSpanP t (sortPts (t.ps.erase old ++ [z]))).ps.Perm (t.ps.erase old ++ [z]) ∧
-    (growSpanP t (sortPts (t.ps.erase old ++ [z]))).ps.Pairwise (fun a b => Pt.le a b = true) ∧
-    (∀ p, (growSpanP t (sortPts (t.ps.erase old ++ [z]))).ps.count p =
-      (t.ps.erase old).count p + if p = z then 1 else 0) ∧
-    (∀ p : Pt Int, p.t ≠ a → (growSpanP t (sortPts (t.ps.erase old ++ [z]))).ps.count p = t.ps.count p) ∧
-    ((growSpanP t (sortPts (t.ps.erase old ++ [z]))).ps.map (·.t)).Perm (t.ps.map (·.t)) ∧
-    (growSpanP t (sortPts (t.ps.erase old ++ [z]))).lo = t.lo ∧
-    (growSpanP t (sortPts (t.ps.erase old ++ [z]))).hi = t.hi := by
-  obtain ⟨hom, hot⟩ := firstAt_some hold
-  have hfin := finish_pinsert t hwf (t.ps.erase old) z (fun p hp => List.mem_of_mem_erase hp) hzs
-  have hcount : ∀ p, (growSpanP t (sortPts (t.ps.erase old ++ [z]))).ps.count p =
-      (t.ps.erase old).count p + if p = z then 1 else 0 := by
-    intro p; rw [hfin.2.2.1.count_eq p, count_append_single]
-  have h1 := hwf.inLo old hom
-  have h2 := hwf.inHi old hom
-  refine ⟨hfin.1, hfin.2.1, hfin.2.2.1, hfin.2.2.2.1, hcount, ?_, ?_, ?_, ?_⟩
-  · intro p hp
-    rw [hcount p, count_erase_of_time_ne _ _ _ (by omega)]
-    have : p ≠ z := by intro e; subst e; exact hp hz
-    simp [this]
-  · have e1 : ((t.ps.erase old ++ [z]).map (·.t)).Perm (old.t :: (t.ps.erase old).map (·.t)) := by
-      rw [List.map_append, List.map_singleton, hz, hot]
-      exact List.perm_append_singleton _ _
-    have e2 : (t.ps.map (·.t)).Perm (old.t :: (t.ps.erase old).map (·.t)) := by
-      have := (List.perm_cons_erase hom).map (·.t)
-      simpa using this
-    exact ((hfin.2.2.1.map (·.t)).trans e1).trans e2.symm
-  · rw [hfin.2.2.2.2.1]; omega
-  · rw [hfin.2.2.2.2.2]; omega
-
-/-- **collision, mode `replace`**: the FIRST point at that time (`old`; in a well-formed tier the one with the least
-label) is removed and the new, stripped point is added; nothing else changes: every point at another time is kept with
-its multiplicity, the multiset of times is the same, name and span are unchanged (the time lies inside the span), the
-result is sorted and well-formed.  Other points at the same time, if any, stay. -/
+/-- **collision, mode `replace`**: EVERY point at that time is removed and the new, stripped point is added; nothing else
+changes: `p ∈ t'.ps ↔ (p ∈ t.ps ∧ p.t ≠ x.t) ∨ p = new`, with multiplicities, and the new point stands exactly where
+the removed ones stood; name and span are unchanged (the time lies inside the span); the result is sorted and
+well-formed and holds exactly one point at that time -/
 theorem pinsert_replace_spec (t : PTier Int) (hwf : t.WF) (x : Pt Int) (hcol : ∃ p ∈ t.ps, p.t = x.t) :
-    ∃ old, t.ps.find? (fun p => p.t == x.t) = some old ∧ old ∈ t.ps ∧ old.t = x.t ∧
-      (∀ q ∈ t.ps, q.t = x.t → Pt.le old q = true) ∧
     ∃ t', t.insertEntry x .replace = .ok t' ∧ t'.WF ∧ t'.name = t.name ∧
-      t'.ps.Perm (t.ps.erase old ++ [⟨x.t, pyStrip x.l⟩]) ∧
+      (∀ p, p ∈ t'.ps ↔ (p ∈ t.ps ∧ p.t ≠ x.t) ∨ p = ⟨x.t, pyStrip x.l⟩) ∧
+      (∀ p, t'.ps.count p = (if p.t = x.t then 0 else t.ps.count p) + if p = ⟨x.t, pyStrip x.l⟩ then 1 else 0) ∧
+      t'.ps = t.ps.filter (fun p => decide (p.t < x.t)) ++
+        ⟨x.t, pyStrip x.l⟩ :: t.ps.filter (fun p => decide (x.t < p.t)) ∧
       t'.ps.Pairwise (fun a b => Pt.le a b = true) ∧
-      (∀ p, t'.ps.count p = (t.ps.erase old).count p + if p = ⟨x.t, pyStrip x.l⟩ then 1 else 0) ∧
-      (∀ p : Pt Int, p.t ≠ x.t → t'.ps.count p = t.ps.count p) ∧
-      (t'.ps.map (·.t)).Perm (t.ps.map (·.t)) ∧
+      t'.ps.filter (fun p => p.t == x.t) = [⟨x.t, pyStrip x.l⟩] ∧
       t'.lo = t.lo ∧ t'.hi = t.hi := by
-  obtain ⟨old, hold⟩ := firstAt_of_collision hcol
-  obtain ⟨hom, hot⟩ := firstAt_some hold
-  refine ⟨old, hold, hom, hot, first_is_least hwf.sorted hold, _, ((pinsert_unfold t x).2 old hold).1, ?_⟩
-  exact collide_spec t hwf x.t old ⟨x.t, pyStrip x.l⟩ hold rfl (pyStrip_idem _)
+  obtain ⟨q, hq, hqt⟩ := hcol
+  have hml := at_ne_nil.2 ⟨q, hq, hqt⟩
+  have hc := insert_core t hwf ⟨x.t, pyStrip x.l⟩ (pyStrip_idem _) _ rfl
+  have h1 := hwf.inLo q hq
+  have h2 := hwf.inHi q hq
+  refine ⟨_, ((C05.pinsert_unfold t x).2 hml).1, hc.1, hc.2.1, hc.2.2.2.2.2.1, hc.2.2.2.2.2.2.1, hc.2.2.2.2.1,
+    hc.2.2.2.1, hc.2.2.2.2.2.2.2.1, ?_, ?_⟩
+  · rw [hc.2.2.2.2.2.2.2.2.2.1]; simp only; omega
+  · rw [hc.2.2.2.2.2.2.2.2.2.2]; simp only; omega
 
-/-- the label of the merged point is stripped (`-` is no white space and both parts are stripped) -/
-theorem pmerged_label_stripped (t : PTier Int) (hwf : t.WF) (x old : Pt Int) (hold : old ∈ t.ps) :
-    pyStrip (pyJoin "-" [old.l, pyStrip x.l]) = pyJoin "-" [old.l, pyStrip x.l] := by
+/-- the label of the merged point is stripped (`-` is no white space and all parts are stripped) -/
+theorem pmerged_label_stripped (t : PTier Int) (hwf : t.WF) (x : Pt Int) :
+    pyStrip (pyJoin "-" ((t.ps.filter (fun p => p.t == x.t)).map (·.l) ++ [pyStrip x.l])) =
+      pyJoin "-" ((t.ps.filter (fun p => p.t == x.t)).map (·.l) ++ [pyStrip x.l]) := by
   apply pyStrip_pyJoin
   intro l hl
-  simp only [List.mem_cons, List.not_mem_nil, or_false] at hl
-  rcases hl with rfl | rfl
-  · exact hwf.stripped old hold
-  · exact pyStrip_idem _
+  rcases List.mem_append.1 hl with hl' | hl'
+  · obtain ⟨p, hp, rfl⟩ := List.mem_map.1 hl'
+    exact hwf.stripped p (mem_at.1 hp).1
+  · simp only [List.mem_singleton] at hl'; subst hl'; exact pyStrip_idem _
 
-/-- **collision, mode `merge`**: the FIRST point at that time and the new one are replaced by one point at that time
-whose label is `old.label + "-" + new.label` (old first — the order of arrival, both at the same time); the merged
-label is stripped; everything else as for `replace` -/
+/-- **collision, mode `merge`**: EVERY point at that time and the new one are replaced by ONE point at that time whose
+label joins, with `-`, the labels of all those points in list order — which is ascending label order — followed by the
+new (stripped) label; the merged label is stripped; everything else as for `replace` -/
 theorem pinsert_merge_spec (t : PTier Int) (hwf : t.WF) (x : Pt Int) (hcol : ∃ p ∈ t.ps, p.t = x.t) :
-    ∃ old, t.ps.find? (fun p => p.t == x.t) = some old ∧ old ∈ t.ps ∧ old.t = x.t ∧
-      (∀ q ∈ t.ps, q.t = x.t → Pt.le old q = true) ∧
-      pyStrip (pyJoin "-" [old.l, pyStrip x.l]) = pyJoin "-" [old.l, pyStrip x.l] ∧
+    ((t.ps.filter (fun p => p.t == x.t)).map (·.l)).Pairwise (· ≤ ·) ∧
+    pyStrip (pyJoin "-" ((t.ps.filter (fun p => p.t == x.t)).map (·.l) ++ [pyStrip x.l])) =
+      pyJoin "-" ((t.ps.filter (fun p => p.t == x.t)).map (·.l) ++ [pyStrip x.l]) ∧
     ∃ t', t.insertEntry x .merge = .ok t' ∧ t'.WF ∧ t'.name = t.name ∧
-      t'.ps.Perm (t.ps.erase old ++ [⟨x.t, pyJoin "-" [old.l, pyStrip x.l]⟩]) ∧
+      (∀ p, p ∈ t'.ps ↔ (p ∈ t.ps ∧ p.t ≠ x.t) ∨
+        p = ⟨x.t, pyJoin "-" ((t.ps.filter (fun p => p.t == x.t)).map (·.l) ++ [pyStrip x.l])⟩) ∧
+      (∀ p, t'.ps.count p = (if p.t = x.t then 0 else t.ps.count p) +
+        if p = ⟨x.t, pyJoin "-" ((t.ps.filter (fun p => p.t == x.t)).map (·.l) ++ [pyStrip x.l])⟩ then 1 else 0) ∧
+      t'.ps = t.ps.filter (fun p => decide (p.t < x.t)) ++
+        ⟨x.t, pyJoin "-" ((t.ps.filter (fun p => p.t == x.t)).map (·.l) ++ [pyStrip x.l])⟩ ::
+          t.ps.filter (fun p => decide (x.t < p.t)) ∧
       t'.ps.Pairwise (fun a b => Pt.le a b = true) ∧
-      (∀ p, t'.ps.count p =
-        (t.ps.erase old).count p + if p = ⟨x.t, pyJoin "-" [old.l, pyStrip x.l]⟩ then 1 else 0) ∧
-      (∀ p : Pt Int, p.t ≠ x.t → t'.ps.count p = t.ps.count p) ∧
-      (t'.ps.map (·.t)).Perm (t.ps.map (·.t)) ∧
+      t'.ps.filter (fun p => p.t == x.t) =
+        [⟨x.t, pyJoin "-" ((t.ps.filter (fun p => p.t == x.t)).map (·.l) ++ [pyStrip x.l])⟩] ∧
       t'.lo = t.lo ∧ t'.hi = t.hi := by
-  obtain ⟨old, hold⟩ := firstAt_of_collision hcol
-  obtain ⟨hom, hot⟩ := firstAt_some hold
-  have hstr := pmerged_label_stripped t hwf x old hom
-  refine ⟨old, hold, hom, hot, first_is_least hwf.sorted hold, hstr, _, ((pinsert_unfold t x).2 old hold).2.1, ?_⟩
-  exact collide_spec t hwf x.t old ⟨x.t, pyJoin "-" [old.l, pyStrip x.l]⟩ hold rfl hstr
+  obtain ⟨q, hq, hqt⟩ := hcol
+  have hml := at_ne_nil.2 ⟨q, hq, hqt⟩
+  have hstr := pmerged_label_stripped t hwf x
+  have hc := insert_core t hwf ⟨x.t, pyJoin "-" ((t.ps.filter (fun p => p.t == x.t)).map (·.l) ++ [pyStrip x.l])⟩
+    hstr _ rfl
+  have h1 := hwf.inLo q hq
+  have h2 := hwf.inHi q hq
+  refine ⟨labels_at_sorted hwf.sorted x.t, hstr, _, ((C05.pinsert_unfold t x).2 hml).2.1, hc.1, hc.2.1,
+    hc.2.2.2.2.2.1, hc.2.2.2.2.2.2.1, hc.2.2.2.2.1, hc.2.2.2.1, hc.2.2.2.2.2.2.2.1, ?_, ?_⟩
+  · rw [hc.2.2.2.2.2.2.2.2.2.1]; simp only; omega
+  · rw [hc.2.2.2.2.2.2.2.2.2.2]; simp only; omega
 
 /-! ## the multiset of times; tiers with at most one point per time -/
 
-/-- an insertion (any mode) that returns a tier: on a collision the multiset of times is unchanged, otherwise the new
-time is added once -/
+/-- an insertion (any mode) that returns a tier: the times off the insertion time are kept (with multiplicity), and
+the insertion time occurs exactly once -/
 theorem pinsert_times (t : PTier Int) (hwf : t.WF) (x : Pt Int) (m : InsMode) (t' : PTier Int)
     (h : t.insertEntry x m = .ok t') :
-    ((∃ p ∈ t.ps, p.t = x.t) → (t'.ps.map (·.t)).Perm (t.ps.map (·.t))) ∧
-    ((∀ p ∈ t.ps, p.t ≠ x.t) → (t'.ps.map (·.t)).Perm (t.ps.map (·.t) ++ [x.t])) := by
-  constructor
-  · intro hcol
-    cases m with
-    | error => rw [((pinsert_error_spec t x).1 hcol).1] at h; cases h
-    | replace =>
-      obtain ⟨_, _, _, _, _, t'', e, _, _, _, _, _, _, hp, _⟩ := pinsert_replace_spec t hwf x hcol
-      rw [h] at e; cases e; exact hp
-    | merge =>
-      obtain ⟨_, _, _, _, _, _, t'', e, _, _, _, _, _, _, hp, _⟩ := pinsert_merge_spec t hwf x hcol
-      rw [h] at e; cases e; exact hp
-  · intro hfree
-    obtain ⟨t'', e, _, _, hp, _⟩ := pinsert_nocollision_spec t hwf x m hfree
-    rw [h] at e; cases e
-    simpa using hp.map (·.t)
+    (t'.ps.map (·.t)).Perm ((t.ps.filter (fun p => !(p.t == x.t))).map (·.t) ++ [x.t]) ∧
+    ∃ z, t'.ps.filter (fun p => p.t == x.t) = [z] := by
+  obtain ⟨z, hz, hzs, ht'⟩ := pinsert_ok_form t hwf x m t' h
+  have hc := insert_core t hwf z hzs t' ht'
+  rw [hz] at hc
+  exact ⟨hc.2.2.2.2.2.2.2.2.1, z, hc.2.2.2.2.2.2.2.1⟩
 
 /-- at most one point per time is an invariant of `insertEntry` (every mode) -/
 theorem pinsert_timesNodup (t : PTier Int) (hwf : t.WF) (hnd : TimesNodup t.ps) (x : Pt Int) (m : InsMode)
     (t' : PTier Int) (h : t.insertEntry x m = .ok t') : TimesNodup t'.ps := by
-  have ht := pinsert_times t hwf x m t' h
-  by_cases hcol : ∃ p ∈ t.ps, p.t = x.t
-  · exact (ht.1 hcol).nodup_iff.2 hnd
-  · have hfree : ∀ p ∈ t.ps, p.t ≠ x.t := fun p hp e => hcol ⟨p, hp, e⟩
-    unfold TimesNodup
-    rw [(ht.2 hfree).nodup_iff, (List.perm_append_singleton _ _).nodup_iff, List.nodup_cons]
-    refine ⟨?_, hnd⟩
-    intro hm
-    obtain ⟨p, hp, hpt⟩ := List.mem_map.1 hm
-    exact hfree p hp hpt
+  have ht := (pinsert_times t hwf x m t' h).1
+  unfold TimesNodup
+  rw [ht.nodup_iff, (List.perm_append_singleton _ _).nodup_iff, List.nodup_cons]
+  refine ⟨?_, hnd.sublist List.filter_sublist⟩
+  intro hm
+  obtain ⟨p, hp, hpt⟩ := List.mem_map.1 hm
+  exact (mem_off.1 hp).2 hpt
 
-/-- **the property's wording, exactly**: when the tier holds at most one point per time, `replace` removes exactly the
-colliding point and adds the new one, `merge` puts one point with the joined label in their place; every other point
-is untouched, and the result again holds at most one point per time -/
+/-- with at most one point per time (an invariant, `pirun_timesNodup`) the colliding point is unique and the merged
+label is `old.label-new.label` -/
 theorem pinsert_collision_exact (t : PTier Int) (hwf : t.WF) (hnd : TimesNodup t.ps) (x old : Pt Int)
     (hold : old ∈ t.ps) (hot : old.t = x.t) :
     (∃ t', t.insertEntry x .replace = .ok t' ∧ t'.WF ∧ TimesNodup t'.ps ∧ t'.lo = t.lo ∧ t'.hi = t.hi ∧
@@ -415,26 +549,13 @@ theorem pinsert_collision_exact (t : PTier Int) (hwf : t.WF) (hnd : TimesNodup t
     (∃ t', t.insertEntry x .merge = .ok t' ∧ t'.WF ∧ TimesNodup t'.ps ∧ t'.lo = t.lo ∧ t'.hi = t.hi ∧
       ∀ p, p ∈ t'.ps ↔ (p ∈ t.ps ∧ p.t ≠ x.t) ∨ p = ⟨x.t, pyJoin "-" [old.l, pyStrip x.l]⟩) := by
   have hcol : ∃ p ∈ t.ps, p.t = x.t := ⟨old, hold, hot⟩
-  have hndp : t.ps.Nodup := List.Pairwise.of_map (·.t) (fun a b hab e => hab (congrArg _ e)) hnd
-  have hmem : ∀ (o : Pt Int), o ∈ t.ps → o.t = x.t → ∀ p, p ∈ t.ps.erase o ↔ (p ∈ t.ps ∧ p.t ≠ x.t) := by
-    intro o ho hox p
-    rw [hndp.mem_erase_iff]
-    constructor
-    · rintro ⟨h1, h2⟩
-      exact ⟨h2, fun e => h1 (hnd.eq_of_time h2 ho (by omega))⟩
-    · rintro ⟨h1, h2⟩
-      exact ⟨fun e => h2 (by rw [e, hox]), h1⟩
   constructor
-  · obtain ⟨o, _, ho, hox, _, t', e, hw, _, hp, _, _, _, _, hlo, hhi⟩ := pinsert_replace_spec t hwf x hcol
-    refine ⟨t', e, hw, pinsert_timesNodup t hwf hnd x .replace t' e, hlo, hhi, ?_⟩
-    intro p
-    rw [hp.mem_iff, List.mem_append, hmem o ho hox p, List.mem_singleton]
-  · obtain ⟨o, _, ho, hox, _, _, t', e, hw, _, hp, _, _, _, _, hlo, hhi⟩ := pinsert_merge_spec t hwf x hcol
-    have : o = old := hnd.eq_of_time ho hold (by omega)
-    subst this
-    refine ⟨t', e, hw, pinsert_timesNodup t hwf hnd x .merge t' e, hlo, hhi, ?_⟩
-    intro p
-    rw [hp.mem_iff, List.mem_append, hmem o ho hox p, List.mem_singleton]
+  · obtain ⟨t', e, hw, _, hm, _, _, _, _, hlo, hhi⟩ := pinsert_replace_spec t hwf x hcol
+    exact ⟨t', e, hw, pinsert_timesNodup t hwf hnd x .replace t' e, hlo, hhi, hm⟩
+  · obtain ⟨_, _, t', e, hw, _, hm, _, _, _, _, hlo, hhi⟩ := pinsert_merge_spec t hwf x hcol
+    have hat : t.ps.filter (fun p => p.t == x.t) = [old] := by rw [← hot]; exact hnd.filter_at hold
+    rw [hat] at hm
+    exact ⟨t', e, hw, pinsert_timesNodup t hwf hnd x .merge t' e, hlo, hhi, hm⟩
 
 /-! ## 5. deleteEntry -/
 
@@ -705,18 +826,19 @@ theorem pirun_labelAt (t : PTier Int) (hwf : t.WF) (hnd : TimesNodup t.ps) (ops 
 
 /-! ## 7. union (C10) — a fold of merge-inserts -/
 
-/-- `insertEntry(·, 'merge')` on the list of points -/
+/-- `insertEntry(·, 'merge')` on the list of points: the points off the time of `x`, plus one point carrying the labels
+of all points at that time (none, one or several) and then the label of `x` -/
 def mergeIns (ps : List (Pt Int)) (x : Pt Int) : List (Pt Int) :=
-  match firstAt ps x.t with
-  | none => sortPts (ps ++ [⟨x.t, pyStrip x.l⟩])
-  | some old => sortPts (ps.erase old ++ [⟨x.t, pyJoin "-" [old.l, pyStrip x.l]⟩])
+  sortPts (ps.filter (fun p => !(p.t == x.t)) ++
+    [⟨x.t, pyJoin "-" ((ps.filter (fun p => p.t == x.t)).map (·.l) ++ [pyStrip x.l])⟩])
 
 theorem pinsert_merge_eq (t : PTier Int) (x : Pt Int) :
     t.insertEntry x .merge = .ok (growSpanP t (mergeIns t.ps x)) := by
   unfold mergeIns
-  cases h : firstAt t.ps x.t with
-  | none => exact (pinsert_unfold t x).1 h .merge
-  | some old => exact ((pinsert_unfold t x).2 old h).2.1
+  by_cases hml : t.ps.filter (fun p => p.t == x.t) = []
+  · rw [(C05.pinsert_unfold t x).1 hml .merge, hml, off_self (at_nil.1 hml)]
+    rfl
+  · exact ((C05.pinsert_unfold t x).2 hml).2.1
 
 def mergeT (t : PTier Int) (x : Pt Int) : PTier Int := growSpanP t (mergeIns t.ps x)
 
@@ -738,20 +860,9 @@ theorem fold_mergeT_ps (l : List (Pt Int)) (t : PTier Int) :
 
 theorem mergeT_wf (t : PTier Int) (hwf : t.WF) (x : Pt Int) :
     (mergeT t x).WF ∧ (mergeT t x).lo = min t.lo x.t ∧ (mergeT t x).hi = max t.hi x.t := by
-  unfold mergeT mergeIns
-  cases h : firstAt t.ps x.t with
-  | none =>
-    have hfin := finish_pinsert t hwf t.ps ⟨x.t, pyStrip x.l⟩ (fun _ h => h) (pyStrip_idem _)
-    exact ⟨hfin.1, hfin.2.2.2.2⟩
-  | some old =>
-    obtain ⟨hom, hot⟩ := firstAt_some h
-    have hc := collide_spec t hwf x.t old ⟨x.t, pyJoin "-" [old.l, pyStrip x.l]⟩ h rfl
-      (pmerged_label_stripped t hwf x old hom)
-    have h1 := hwf.inLo old hom
-    have h2 := hwf.inHi old hom
-    refine ⟨hc.1, ?_, ?_⟩
-    · simp only; rw [hc.2.2.2.2.2.2.2.1]; omega
-    · simp only; rw [hc.2.2.2.2.2.2.2.2]; omega
+  have hc := insert_core t hwf ⟨x.t, pyJoin "-" ((t.ps.filter (fun p => p.t == x.t)).map (·.l) ++ [pyStrip x.l])⟩
+    (pmerged_label_stripped t hwf x) (mergeT t x) rfl
+  exact ⟨hc.1, hc.2.2.2.2.2.2.2.2.2⟩
 
 theorem fold_mergeT_wf (l : List (Pt Int)) (t : PTier Int) (hwf : t.WF) :
     (l.foldl mergeT t).WF ∧ (l.foldl mergeT t).lo = hullMin (l.map (·.t)) t.lo ∧
@@ -765,95 +876,67 @@ theorem fold_mergeT_wf (l : List (Pt Int)) (t : PTier Int) (hwf : t.WF) :
     exact ⟨i1, by rw [i2, h2], by rw [i3, h3]⟩
 
 theorem mergeIns_sorted (ps : List (Pt Int)) (x : Pt Int) :
-    (mergeIns ps x).Pairwise (fun a b => Pt.le a b = true) := by
-  unfold mergeIns
-  split <;> exact C14.sortPts_pairwise _
+    (mergeIns ps x).Pairwise (fun a b => Pt.le a b = true) := C14.sortPts_pairwise _
+
+theorem mergeIns_perm (ps : List (Pt Int)) (x : Pt Int) :
+    (mergeIns ps x).Perm (ps.filter (fun p => !(p.t == x.t)) ++
+      [⟨x.t, pyJoin "-" ((ps.filter (fun p => p.t == x.t)).map (·.l) ++ [pyStrip x.l])⟩]) := C14.sortPts_perm _
 
 theorem mergeIns_count (ps : List (Pt Int)) (x p : Pt Int) :
-    (firstAt ps x.t = none →
-      (mergeIns ps x).count p = ps.count p + if p = ⟨x.t, pyStrip x.l⟩ then 1 else 0) ∧
-    (∀ old, firstAt ps x.t = some old →
-      (mergeIns ps x).count p =
-        (ps.erase old).count p + if p = ⟨x.t, pyJoin "-" [old.l, pyStrip x.l]⟩ then 1 else 0) := by
-  constructor
-  · intro h
-    simp only [mergeIns, h]
-    rw [(C14.sortPts_perm _).count_eq p, count_append_single]
-  · intro old h
-    simp only [mergeIns, h]
-    rw [(C14.sortPts_perm _).count_eq p, count_append_single]
+    (mergeIns ps x).count p = (if p.t = x.t then 0 else ps.count p) +
+      if p = ⟨x.t, pyJoin "-" ((ps.filter (fun p => p.t == x.t)).map (·.l) ++ [pyStrip x.l])⟩ then 1 else 0 := by
+  rw [(mergeIns_perm ps x).count_eq p, count_append_single, count_off]
 
 theorem mergeIns_count_ne (ps : List (Pt Int)) (x p : Pt Int) (hp : p.t ≠ x.t) :
     (mergeIns ps x).count p = ps.count p := by
-  cases h : firstAt ps x.t with
-  | none =>
-    rw [(mergeIns_count ps x p).1 h]
-    have : p ≠ ⟨x.t, pyStrip x.l⟩ := by intro e; subst e; exact hp rfl
-    simp [this]
-  | some old =>
-    rw [(mergeIns_count ps x p).2 old h, count_erase_of_time_ne _ _ _ (by rw [(firstAt_some h).2]; exact hp)]
-    have : p ≠ ⟨x.t, pyJoin "-" [old.l, pyStrip x.l]⟩ := by intro e; subst e; exact hp rfl
-    simp [this]
+  rw [mergeIns_count, if_neg hp]
+  have : p ≠ ⟨x.t, pyJoin "-" ((ps.filter (fun p => p.t == x.t)).map (·.l) ++ [pyStrip x.l])⟩ := by
+    intro e; rw [e] at hp; exact hp rfl
+  simp [this]
 
-/-- the point that a merge-insert leaves at the time of its argument -/
-theorem mergeIns_has (ps : List (Pt Int)) (x : Pt Int) : ∃ z ∈ mergeIns ps x, z.t = x.t := by
-  cases h : firstAt ps x.t with
-  | none =>
-    refine ⟨⟨x.t, pyStrip x.l⟩, ?_, rfl⟩
-    rw [← List.count_pos_iff, (mergeIns_count ps x _).1 h]; simp
-  | some old =>
-    refine ⟨⟨x.t, pyJoin "-" [old.l, pyStrip x.l]⟩, ?_, rfl⟩
-    rw [← List.count_pos_iff, (mergeIns_count ps x _).2 old h]; simp
+/-- the points at the time of the argument after a merge-insert: the one merged point -/
+theorem mergeIns_at_same (ps : List (Pt Int)) (x : Pt Int) :
+    (mergeIns ps x).filter (fun p => p.t == x.t) =
+      [⟨x.t, pyJoin "-" ((ps.filter (fun p => p.t == x.t)).map (·.l) ++ [pyStrip x.l])⟩] := by
+  rw [← List.perm_singleton]
+  refine ((mergeIns_perm ps x).filter _).trans ?_
+  rw [List.filter_append]
+  have e1 : (ps.filter (fun p => !(p.t == x.t))).filter (fun p => p.t == x.t) = [] := by
+    rw [at_nil]; intro p hp; exact (mem_off.1 hp).2
+  rw [e1]
+  simp
+
+/-- the points at any other time: untouched, in the same order -/
+theorem mergeIns_at_other (ps : List (Pt Int)) (hs : ps.Pairwise (fun a b => Pt.le a b = true)) (x : Pt Int) (a : Int)
+    (ha : a ≠ x.t) : (mergeIns ps x).filter (fun p => p.t == a) = ps.filter (fun p => p.t == a) :=
+  filter_at_congr (mergeIns_sorted ps x) hs a (fun p hp => mergeIns_count_ne ps x p (by omega))
 
 theorem mergeIns_times (ps : List (Pt Int)) (x : Pt Int) (a : Int) :
     (∃ p ∈ mergeIns ps x, p.t = a) ↔ (∃ p ∈ ps, p.t = a) ∨ a = x.t := by
+  have hmem : ∀ p, p ∈ mergeIns ps x ↔ (p ∈ ps ∧ p.t ≠ x.t) ∨
+      p = ⟨x.t, pyJoin "-" ((ps.filter (fun p => p.t == x.t)).map (·.l) ++ [pyStrip x.l])⟩ := by
+    intro p
+    rw [(mergeIns_perm ps x).mem_iff, List.mem_append, mem_off, List.mem_singleton]
   constructor
   · rintro ⟨p, hp, hpa⟩
-    by_cases e : a = x.t
-    · exact Or.inr e
-    · left
-      refine ⟨p, ?_, hpa⟩
-      rw [← List.count_pos_iff, ← mergeIns_count_ne ps x p (by omega)]
-      exact List.count_pos_iff.2 hp
+    rcases (hmem p).1 hp with ⟨h1, _⟩ | h
+    · exact Or.inl ⟨p, h1, hpa⟩
+    · right; rw [← hpa, h]
   · intro h
     by_cases e : a = x.t
-    · subst e; exact mergeIns_has ps x
+    · exact ⟨_, (hmem _).2 (Or.inr rfl), e.symm⟩
     · rcases h with ⟨p, hp, hpa⟩ | h
-      · refine ⟨p, ?_, hpa⟩
-        rw [← List.count_pos_iff, mergeIns_count_ne ps x p (by omega)]
-        exact List.count_pos_iff.2 hp
+      · exact ⟨p, (hmem p).2 (Or.inl ⟨hp, by omega⟩), hpa⟩
       · exact absurd h e
 
-/-- list-level: exchanging a point for another at the same time keeps the multiset of times -/
-theorem times_erase_append (ps : List (Pt Int)) (old z : Pt Int) (hom : old ∈ ps) (hz : z.t = old.t) :
-    ((ps.erase old ++ [z]).map (·.t)).Perm (ps.map (·.t)) := by
-  have e1 : ((ps.erase old ++ [z]).map (·.t)).Perm (old.t :: (ps.erase old).map (·.t)) := by
-    rw [List.map_append, List.map_singleton, hz]
-    exact List.perm_append_singleton _ _
-  have e2 : (ps.map (·.t)).Perm (old.t :: (ps.erase old).map (·.t)) := by
-    have := (List.perm_cons_erase hom).map (·.t)
-    simpa using this
-  exact e1.trans e2.symm
-
 theorem mergeIns_timesNodup (ps : List (Pt Int)) (hnd : TimesNodup ps) (x : Pt Int) : TimesNodup (mergeIns ps x) := by
-  unfold mergeIns
-  cases h : firstAt ps x.t with
-  | none =>
-    simp only
-    refine TimesNodup.perm ?_ (C14.sortPts_perm _)
-    unfold TimesNodup
-    rw [List.map_append, List.map_singleton, (List.perm_append_singleton _ _).nodup_iff, List.nodup_cons]
-    refine ⟨?_, hnd⟩
-    intro hm
-    obtain ⟨p, hp, hpt⟩ := List.mem_map.1 hm
-    exact firstAt_none.1 h p hp hpt
-  | some old =>
-    simp only
-    obtain ⟨hom, hot⟩ := firstAt_some h
-    refine TimesNodup.perm ?_ (C14.sortPts_perm _)
-    unfold TimesNodup
-    rw [(times_erase_append ps old _ hom (by simp [hot])).nodup_iff]
-    exact hnd
+  refine TimesNodup.perm ?_ (mergeIns_perm ps x)
+  unfold TimesNodup
+  rw [List.map_append, List.map_singleton, (List.perm_append_singleton _ _).nodup_iff, List.nodup_cons]
+  refine ⟨?_, hnd.sublist List.filter_sublist⟩
+  intro hm
+  obtain ⟨p, hp, hpt⟩ := List.mem_map.1 hm
+  exact (mem_off.1 hp).2 hpt
 
 theorem fold_sorted (l ps : List (Pt Int)) (hs : ps.Pairwise (fun a b => Pt.le a b = true)) :
     (l.foldl mergeIns ps).Pairwise (fun a b => Pt.le a b = true) := by
@@ -893,44 +976,62 @@ theorem fold_timesNodup (l ps : List (Pt Int)) (hnd : TimesNodup ps) : TimesNodu
   | nil => exact hnd
   | cons x l ih => exact ih _ (mergeIns_timesNodup ps hnd x)
 
-/-- the points left at the time of `b` when `b` is the only entry of the inserted list at that time -/
-theorem fold_at (l1 l2 ps : List (Pt Int)) (b : Pt Int) (hs : ps.Pairwise (fun a b => Pt.le a b = true))
-    (h1 : ∀ q ∈ l1, q.t ≠ b.t) (h2 : ∀ q ∈ l2, q.t ≠ b.t) (p : Pt Int) (hp : p.t = b.t) :
-    (firstAt ps b.t = none →
-      ((l1 ++ b :: l2).foldl mergeIns ps).count p = if p = ⟨b.t, pyStrip b.l⟩ then 1 else 0) ∧
-    (∀ old, firstAt ps b.t = some old →
-      ((l1 ++ b :: l2).foldl mergeIns ps).count p =
-        (ps.erase old).count p + if p = ⟨b.t, pyJoin "-" [old.l, pyStrip b.l]⟩ then 1 else 0) := by
-  have hc1 : ∀ q : Pt Int, q.t = b.t → (l1.foldl mergeIns ps).count q = ps.count q := by
-    intro q hq
-    exact fold_count_ne l1 ps q (fun r hr => by rw [hq]; exact h1 r hr)
-  have hf : firstAt (l1.foldl mergeIns ps) b.t = firstAt ps b.t := firstAt_congr (fold_sorted l1 ps hs) hs b.t hc1
-  have hc2 : ((l1 ++ b :: l2).foldl mergeIns ps).count p = (mergeIns (l1.foldl mergeIns ps) b).count p := by
-    rw [List.foldl_append, List.foldl_cons]
-    exact fold_count_ne l2 _ p (fun r hr => by rw [hp]; exact h2 r hr)
-  constructor
-  · intro hn
-    rw [hc2, (mergeIns_count _ b p).1 (by rw [hf]; exact hn), hc1 p hp]
-    have : p ∉ ps := fun hm => firstAt_none.1 hn p hm hp
-    rw [List.count_eq_zero_of_not_mem this, Nat.zero_add]
-  · intro old ho
-    rw [hc2, (mergeIns_count _ b p).2 old (by rw [hf]; exact ho), List.count_erase, List.count_erase, hc1 p hp]
+/-- `"-".join(["-".join(L)] + B) = "-".join(L + B)` for non-empty `L`: merging step by step gives the flat join -/
+theorem pyJoin_cons_join (sep : String) (L : List String) (hL : L ≠ []) (B : List String) :
+    pyJoin sep (pyJoin sep L :: B) = pyJoin sep (L ++ B) := by
+  induction L with
+  | nil => exact absurd rfl hL
+  | cons y L ih =>
+    cases L with
+    | nil => rfl
+    | cons y' L' =>
+      have ih' := ih (by simp)
+      cases B with
+      | nil => simp [pyJoin]
+      | cons b B' =>
+        have e1 : pyJoin sep (y :: y' :: L') = y ++ sep ++ pyJoin sep (y' :: L') := rfl
+        have e2 : pyJoin sep ((y :: y' :: L') ++ b :: B') = y ++ sep ++ pyJoin sep ((y' :: L') ++ b :: B') := rfl
+        have e3 : ∀ (s : String), pyJoin sep (s :: b :: B') = s ++ sep ++ pyJoin sep (b :: B') := fun _ => rfl
+        rw [e2, ← ih', e1, e3, e3]
+        simp only [String.append_assoc]
 
-theorem TimesNodup.split {l1 l2 : List (Pt Int)} {b : Pt Int} (h : TimesNodup (l1 ++ b :: l2)) :
-    (∀ q ∈ l1, q.t ≠ b.t) ∧ (∀ q ∈ l2, q.t ≠ b.t) := by
-  have hcount := h.count_le_one b
-  rw [List.count_append, List.count_cons_self] at hcount
-  constructor
-  · intro q hq e
-    have : q = b := h.eq_of_time (List.mem_append_left _ hq) (by simp) e
-    subst this
-    have := List.count_pos_iff.2 hq
-    omega
-  · intro q hq e
-    have : q = b := h.eq_of_time (List.mem_append_right _ (List.mem_cons_of_mem _ hq)) (by simp) e
-    subst this
-    have := List.count_pos_iff.2 hq
-    omega
+/-- folding merge-inserts: a time that the inserted list does not have keeps its points, in order -/
+theorem fold_at_none (l ps : List (Pt Int)) (hs : ps.Pairwise (fun a b => Pt.le a b = true)) (a : Int)
+    (h : ∀ q ∈ l, q.t ≠ a) : (l.foldl mergeIns ps).filter (fun p => p.t == a) = ps.filter (fun p => p.t == a) := by
+  induction l generalizing ps with
+  | nil => rfl
+  | cons x l ih =>
+    simp only [List.foldl_cons]
+    rw [ih _ (mergeIns_sorted ps x) (fun q hq => h q (List.mem_cons_of_mem _ hq)),
+      mergeIns_at_other ps hs x a (fun e => h x (by simp) e.symm)]
+
+/-- … and a time that it has ends up with exactly ONE point, whose label joins the labels of the points already there
+(in list order) and then the labels of the inserted points at that time (in the order of insertion) -/
+theorem fold_at_some (l ps : List (Pt Int)) (hs : ps.Pairwise (fun a b => Pt.le a b = true)) (a : Int)
+    (h : l.filter (fun p => p.t == a) ≠ []) :
+    (l.foldl mergeIns ps).filter (fun p => p.t == a) =
+      [⟨a, pyJoin "-" ((ps.filter (fun p => p.t == a)).map (·.l) ++
+        (l.filter (fun p => p.t == a)).map (fun p => pyStrip p.l))⟩] := by
+  induction l generalizing ps with
+  | nil => exact absurd rfl h
+  | cons x l ih =>
+    simp only [List.foldl_cons]
+    by_cases hx : x.t = a
+    · subst hx
+      have hfx : (x :: l).filter (fun p => p.t == x.t) = x :: l.filter (fun p => p.t == x.t) := by
+        simp
+      rw [hfx]
+      by_cases hl : l.filter (fun p => p.t == x.t) = []
+      · rw [fold_at_none l _ (mergeIns_sorted ps x) x.t (at_nil.1 hl), mergeIns_at_same, hl]
+        rfl
+      · rw [ih _ (mergeIns_sorted ps x) hl, mergeIns_at_same]
+        simp only [List.map_cons, List.map_nil, List.singleton_append]
+        rw [pyJoin_cons_join "-" _ (by simp), List.append_assoc, List.singleton_append]
+    · have hfx : (x :: l).filter (fun p => p.t == a) = l.filter (fun p => p.t == a) := by
+        simp [hx]
+      rw [hfx] at h ⊢
+      rw [ih _ (mergeIns_sorted ps x) h, mergeIns_at_other ps hs x a (fun e => hx e.symm)]
+
 
 /-- `union` computes the fold -/
 theorem punion_eq_fold (t u : PTier Int) (ht : t.WF) :
@@ -944,80 +1045,35 @@ theorem punion_eq_fold (t u : PTier Int) (ht : t.WF) :
     List.mergeSort_of_pairwise (fold_mergeT_wf u.ps t ht).1.sorted
   rw [hsrt]
 
-/-- **union of point tiers** (`t.union(u)`, both well-formed).  It never fails; the result is well-formed and keeps
-`t`'s name; its times are exactly the times of `t` and of `u`; a point of `t` at a time where `u` has none is kept
-(with its multiplicity); when `u` holds at most one point per time: a point of `u` at a time where `t` has none is
-present with its label and is the only point there, and a point `b` of `u` at a time where `t` has points is merged
-with the FIRST of them, `old`, into `old.label-b.label`, `t`'s other points at that time staying as they are (so with at
-most one point per time in `t` as well, there is exactly one point at a common time and its label is `lt-lu`);
-at most one point per time in `t` gives the same for the result, whatever `u` is; the span is `t`'s span grown to the
-TIMES OF `u`'S POINTS (`u`'s own minTimestamp/maxTimestamp play no role) -/
+/-- **union of point tiers** (`t.union(u)`, both well-formed; no hypothesis on coinciding times).  It never fails; the
+result is well-formed and keeps `t`'s name; its times are exactly the times of `t` and of `u`; at a time that `u` does
+not have, `t`'s points are kept as they are (all of them, in order); at a time that `u` has, ALL points of both tiers
+at that time are fused into exactly ONE point whose label joins, with `-`, the labels of `t`'s points there (list order
+= ascending label) followed by the labels of `u`'s points there (list order); at most one point per time in `t` gives the
+same for the result, whatever `u` is; the span is `t`'s span grown to the TIMES OF `u`'S POINTS (`u`'s own
+minTimestamp/maxTimestamp play no role) -/
 theorem punion_spec (t u : PTier Int) (ht : t.WF) (hu : u.WF) :
     ∃ r, t.union u = .ok r ∧ r.WF ∧ r.name = t.name ∧
       (∀ a, (∃ p ∈ r.ps, p.t = a) ↔ (∃ p ∈ t.ps, p.t = a) ∨ (∃ p ∈ u.ps, p.t = a)) ∧
+      (∀ a, (∀ q ∈ u.ps, q.t ≠ a) → r.ps.filter (fun p => p.t == a) = t.ps.filter (fun p => p.t == a)) ∧
+      (∀ a, (∃ q ∈ u.ps, q.t = a) → r.ps.filter (fun p => p.t == a) =
+        [⟨a, pyJoin "-" ((t.ps.filter (fun p => p.t == a)).map (·.l) ++
+          (u.ps.filter (fun p => p.t == a)).map (·.l))⟩]) ∧
       (∀ p : Pt Int, (∀ q ∈ u.ps, q.t ≠ p.t) → r.ps.count p = t.ps.count p) ∧
-      (TimesNodup u.ps → ∀ q ∈ u.ps, (∀ p ∈ t.ps, p.t ≠ q.t) → q ∈ r.ps ∧ ∀ p ∈ r.ps, p.t = q.t → p = q) ∧
-      (TimesNodup u.ps → ∀ b ∈ u.ps, ∀ old, t.ps.find? (fun p => p.t == b.t) = some old →
-        ∀ p : Pt Int, p.t = b.t →
-          r.ps.count p = (t.ps.erase old).count p + if p = ⟨b.t, pyJoin "-" [old.l, b.l]⟩ then 1 else 0) ∧
-      (TimesNodup t.ps → TimesNodup u.ps → ∀ a ∈ t.ps, ∀ b ∈ u.ps, a.t = b.t →
-        (⟨a.t, pyJoin "-" [a.l, b.l]⟩ : Pt Int) ∈ r.ps ∧
-        ∀ p ∈ r.ps, p.t = a.t → p = ⟨a.t, pyJoin "-" [a.l, b.l]⟩) ∧
       (TimesNodup t.ps → TimesNodup r.ps) ∧
       r.lo = hullMin (u.ps.map (·.t)) t.lo ∧ r.hi = hullMax (u.ps.map (·.t)) t.hi := by
   obtain ⟨he, hps⟩ := punion_eq_fold t u ht
   obtain ⟨hw, hlo, hhi⟩ := fold_mergeT_wf u.ps t ht
-  -- the fold at the time of a point of `u` that is alone at its time
-  have hat : TimesNodup u.ps → ∀ b ∈ u.ps, ∀ p : Pt Int, p.t = b.t →
-      (firstAt t.ps b.t = none → (u.ps.foldl mergeT t).ps.count p = if p = b then 1 else 0) ∧
-      (∀ old, firstAt t.ps b.t = some old → (u.ps.foldl mergeT t).ps.count p =
-        (t.ps.erase old).count p + if p = ⟨b.t, pyJoin "-" [old.l, b.l]⟩ then 1 else 0) := by
-    intro hnd b hb p hp
-    obtain ⟨l1, l2, hsplit⟩ := List.append_of_mem hb
-    rw [hsplit] at hnd
-    obtain ⟨h1, h2⟩ := hnd.split
-    have hbs : pyStrip b.l = b.l := hu.stripped b hb
-    have hbb : (⟨b.t, pyStrip b.l⟩ : Pt Int) = b := by rw [hbs]
-    have := fold_at l1 l2 t.ps b ht.sorted h1 h2 p hp
-    rw [hbs, ← hsplit, ← hps] at this
-    simpa [hbb] using this
-  refine ⟨_, he, hw, (fold_mergeT_ps u.ps t).2, ?_, ?_, ?_, ?_, ?_, ?_, hlo, hhi⟩
+  refine ⟨_, he, hw, (fold_mergeT_ps u.ps t).2, ?_, ?_, ?_, ?_, ?_, hlo, hhi⟩
   · intro a; rw [hps]; exact fold_times u.ps t.ps a
+  · intro a h; rw [hps]; exact fold_at_none u.ps t.ps ht.sorted a h
+  · intro a h
+    rw [hps, fold_at_some u.ps t.ps ht.sorted a (at_ne_nil.2 h)]
+    have : (u.ps.filter (fun p => p.t == a)).map (fun p => pyStrip p.l) =
+        (u.ps.filter (fun p => p.t == a)).map (·.l) :=
+      List.map_congr_left (fun p hp => hu.stripped p (mem_at.1 hp).1)
+    rw [this]
   · intro p h; rw [hps]; exact fold_count_ne u.ps t.ps p h
-  · intro hnd q hq hfree
-    have hn : firstAt t.ps q.t = none := firstAt_none.2 hfree
-    constructor
-    · rw [← List.count_pos_iff, ((hat hnd q hq q rfl).1 hn)]; simp
-    · intro p hp hpt
-      have := (hat hnd q hq p hpt).1 hn
-      by_cases e : p = q
-      · exact e
-      · rw [if_neg e] at this
-        exact absurd (List.count_pos_iff.2 hp) (by omega)
-  · intro hnd b hb old ho p hp
-    exact (hat hnd b hb p hp).2 old ho
-  · intro hndt hndu a ha b hb hab
-    obtain ⟨old, ho⟩ := firstAt_of_collision (ps := t.ps) (a := b.t) ⟨a, ha, hab⟩
-    obtain ⟨hom, hot⟩ := firstAt_some ho
-    have : old = a := hndt.eq_of_time hom ha (by omega)
-    subst this
-    have hz : ∀ p : Pt Int, p.t = b.t → (t.ps.erase old).count p = 0 := by
-      intro p hp
-      apply List.count_eq_zero_of_not_mem
-      intro hm
-      have hndp : t.ps.Nodup := List.Pairwise.of_map (·.t) (fun a b hab e => hab (congrArg _ e)) hndt
-      rw [hndp.mem_erase_iff] at hm
-      exact hm.1 (hndt.eq_of_time hm.2 hom (by omega))
-    rw [hab]
-    constructor
-    · rw [← List.count_pos_iff, (hat hndu b hb ⟨b.t, pyJoin "-" [old.l, b.l]⟩ rfl).2 old ho]; simp
-    · intro p hp hpt
-      have := (hat hndu b hb p hpt).2 old ho
-      rw [hz p hpt] at this
-      by_cases e : p = ⟨b.t, pyJoin "-" [old.l, b.l]⟩
-      · exact e
-      · rw [if_neg e] at this
-        exact absurd (List.count_pos_iff.2 hp) (by omega)
   · intro hnd; rw [hps]; exact fold_timesNodup u.ps t.ps hnd
 
 /-- with at most one point per time in both operands the union is, point for point: `t`'s points at times `u` does not
@@ -1026,32 +1082,52 @@ theorem punion_exact (t u : PTier Int) (ht : t.WF) (hu : u.WF) (hndt : TimesNodu
     ∃ r, t.union u = .ok r ∧ r.WF ∧ TimesNodup r.ps ∧
       ∀ p, p ∈ r.ps ↔ (p ∈ t.ps ∧ ∀ q ∈ u.ps, q.t ≠ p.t) ∨ (p ∈ u.ps ∧ ∀ q ∈ t.ps, q.t ≠ p.t) ∨
         ∃ a ∈ t.ps, ∃ b ∈ u.ps, a.t = b.t ∧ p = ⟨a.t, pyJoin "-" [a.l, b.l]⟩ := by
-  obtain ⟨r, he, hw, _, htimes, hkeep, hnew, _, hboth, hnd, _, _⟩ := punion_spec t u ht hu
+  obtain ⟨r, he, hw, _, _, hnone, hsome, _, hnd, _, _⟩ := punion_spec t u ht hu
   refine ⟨r, he, hw, hnd hndt, ?_⟩
+  -- the points of `r` at a time of `u`
+  have hat : ∀ q ∈ u.ps, r.ps.filter (fun p => p.t == q.t) =
+      [⟨q.t, pyJoin "-" ((t.ps.filter (fun p => p.t == q.t)).map (·.l) ++ [q.l])⟩] := by
+    intro q hq
+    rw [hsome q.t ⟨q, hq, rfl⟩, hndu.filter_at hq]
+    rfl
+  have hself : ∀ p : Pt Int, p ∈ r.ps ↔ p ∈ r.ps.filter (fun p' => p'.t == p.t) := by
+    intro p; rw [mem_at]; exact ⟨fun h => ⟨h, rfl⟩, fun h => h.1⟩
   intro p
   constructor
   · intro hp
     by_cases hq : ∃ q ∈ u.ps, q.t = p.t
     · obtain ⟨q, hq, hqt⟩ := hq
-      by_cases ha : ∃ a ∈ t.ps, a.t = p.t
-      · obtain ⟨a, ha, hat⟩ := ha
+      have hp' := (hself p).1 hp
+      rw [← hqt, hat q hq, List.mem_singleton] at hp'
+      by_cases ha : ∃ a ∈ t.ps, a.t = q.t
+      · obtain ⟨a, ha, hat'⟩ := ha
         right; right
-        exact ⟨a, ha, q, hq, by omega, (hboth hndt hndu a ha q hq (by omega)).2 p hp (by omega)⟩
+        have := hndt.filter_at ha
+        rw [hat'] at this
+        rw [this] at hp'
+        exact ⟨a, ha, q, hq, hat', by rw [hat']; exact hp'⟩
       · right; left
-        have hfree : ∀ a ∈ t.ps, a.t ≠ q.t := fun a ham e => ha ⟨a, ham, by omega⟩
-        have := (hnew hndu q hq hfree).2 p hp (by omega)
+        have hfree : ∀ a ∈ t.ps, a.t ≠ q.t := fun a ham e => ha ⟨a, ham, e⟩
+        rw [at_nil.2 hfree] at hp'
+        have : p = q := by rw [hp']; rfl
         subst this
         exact ⟨hq, hfree⟩
     · left
       have hfree : ∀ q ∈ u.ps, q.t ≠ p.t := fun q hqm e => hq ⟨q, hqm, e⟩
-      refine ⟨?_, hfree⟩
-      rw [← List.count_pos_iff, ← hkeep p hfree]
-      exact List.count_pos_iff.2 hp
+      have hp' := (hself p).1 hp
+      rw [hnone p.t hfree] at hp'
+      exact ⟨(mem_at.1 hp').1, hfree⟩
   · rintro (⟨hp, hfree⟩ | ⟨hp, hfree⟩ | ⟨a, ha, b, hb, hab, rfl⟩)
-    · rw [← List.count_pos_iff, hkeep p hfree]
-      exact List.count_pos_iff.2 hp
-    · exact (hnew hndu p hp hfree).1
-    · exact (hboth hndt hndu a ha b hb hab).1
+    · rw [hself, hnone p.t hfree, mem_at]; exact ⟨hp, rfl⟩
+    · rw [hself, hat p hp, at_nil.2 hfree]
+      exact List.mem_singleton.2 rfl
+    · rw [hself]
+      show _ ∈ r.ps.filter (fun p' => p'.t == a.t)
+      rw [hab, hat b hb]
+      have := hndt.filter_at ha
+      rw [hab] at this
+      rw [this]
+      exact List.mem_singleton.2 rfl
 
 /-! ## 8. appendTier (C09) — entry order -/
 
@@ -1148,7 +1224,7 @@ theorem pappend_order (t u : PTier Int) (ht : t.WF) (hu : u.WF) :
         rw [if_neg (by omega), if_neg (by omega)]
         simpa using this
 
-/-! ## non-vacuity: concrete tiers, proved instances, and the counterexamples on coinciding times -/
+/-! ## non-vacuity: concrete tiers, proved instances, the regressions of A24 on coinciding times, and the appendTier order -/
 
 /-- one point per time -/
 def pexT : PTier Int := ⟨"P", [⟨10, "a"⟩, ⟨40, "b"⟩, ⟨70, "d"⟩], 0, 100⟩
@@ -1185,47 +1261,34 @@ theorem pex_error : pexT.insertEntry ⟨40, "n"⟩ .error = .error .CollisionErr
 /-- instances of `pinsert_replace_spec` / `pinsert_merge_spec` on a tier with one point per time -/
 theorem pex_replace : ∃ t', pexT.insertEntry ⟨40, " n "⟩ .replace = .ok t' ∧ t'.WF ∧
     t'.ps = [⟨10, "a"⟩, ⟨40, "n"⟩, ⟨70, "d"⟩] ∧ t'.lo = 0 ∧ t'.hi = 100 := by
-  obtain ⟨old, hf, _, _, _, t', e, hw, _, hp, hs, _, _, _, hlo, hhi⟩ :=
+  obtain ⟨t', e, hw, _, _, _, hps, _, _, hlo, hhi⟩ :=
     pinsert_replace_spec pexT pexT_wf ⟨40, " n "⟩ ⟨⟨40, "b"⟩, by decide, rfl⟩
-  have : old = ⟨40, "b"⟩ := by
-    have h : pexT.ps.find? (fun p => p.t == 40) = some ⟨40, "b"⟩ := by decide
-    rw [h] at hf; exact (Option.some.inj hf).symm
-  subst this
-  exact ⟨t', e, hw, sorted_perm_unique hs (by decide) (hp.trans (by decide)), hlo, hhi⟩
+  refine ⟨t', e, hw, ?_, hlo, hhi⟩
+  rw [hps]; decide
 
 theorem pex_merge : ∃ t', pexT.insertEntry ⟨40, " n "⟩ .merge = .ok t' ∧ t'.WF ∧
     t'.ps = [⟨10, "a"⟩, ⟨40, "b-n"⟩, ⟨70, "d"⟩] ∧ t'.lo = 0 ∧ t'.hi = 100 := by
-  obtain ⟨old, hf, _, _, _, _, t', e, hw, _, hp, hs, _, _, _, hlo, hhi⟩ :=
+  obtain ⟨_, _, t', e, hw, _, _, _, hps, _, _, hlo, hhi⟩ :=
     pinsert_merge_spec pexT pexT_wf ⟨40, " n "⟩ ⟨⟨40, "b"⟩, by decide, rfl⟩
-  have : old = ⟨40, "b"⟩ := by
-    have h : pexT.ps.find? (fun p => p.t == 40) = some ⟨40, "b"⟩ := by decide
-    rw [h] at hf; exact (Option.some.inj hf).symm
-  subst this
-  exact ⟨t', e, hw, sorted_perm_unique hs (by decide) (hp.trans (by decide)), hlo, hhi⟩
+  refine ⟨t', e, hw, ?_, hlo, hhi⟩
+  rw [hps]; decide
 
-/-- **counterexample to the property as worded** ("'replace' removes exactly the colliding entries", "'merge' replaces
-them and the new entry by one entry … whose label joins all labels"): with two points at the time of the new one, only
-the FIRST is replaced / merged — the other colliding point stays.  Replayed on the code:
+/-- **regression of A24** (the former `pinsert_collision_counterexample`): with TWO points at the time of the new one,
+`replace` removes both and `merge` joins both labels and then the new one.  Before the repair the code left
+`[(10,'a'), (40,'c'), (40,'n'), (70,'d')]` and `[(10,'a'), (40,'b-n'), (40,'c'), (70,'d')]`.  Replayed on the code:
 `t = PointTier('P', [(10,'a'),(40,'b'),(40,'c'),(70,'d')], 0, 100); t.insertEntry((40,'n'), 'replace')` leaves
-`[(10,'a'), (40,'c'), (40,'n'), (70,'d')]`, and `'merge'` leaves `[(10,'a'), (40,'b-n'), (40,'c'), (70,'d')]`. -/
-theorem pinsert_collision_counterexample :
+`[(10,'a'), (40,'n'), (70,'d')]`, and `'merge'` leaves `[(10,'a'), (40,'b-c-n'), (70,'d')]`. -/
+theorem pinsert_collision_regression :
     pexD.WF ∧
-    (∃ t', pexD.insertEntry ⟨40, "n"⟩ .replace = .ok t' ∧
-      t'.ps = [⟨10, "a"⟩, ⟨40, "c"⟩, ⟨40, "n"⟩, ⟨70, "d"⟩]) ∧
-    (∃ t', pexD.insertEntry ⟨40, "n"⟩ .merge = .ok t' ∧
-      t'.ps = [⟨10, "a"⟩, ⟨40, "b-n"⟩, ⟨40, "c"⟩, ⟨70, "d"⟩]) := by
-  have hfind : pexD.ps.find? (fun p => p.t == 40) = some ⟨40, "b"⟩ := by decide
+    (∃ t', pexD.insertEntry ⟨40, "n"⟩ .replace = .ok t' ∧ t'.ps = [⟨10, "a"⟩, ⟨40, "n"⟩, ⟨70, "d"⟩]) ∧
+    (∃ t', pexD.insertEntry ⟨40, "n"⟩ .merge = .ok t' ∧ t'.ps = [⟨10, "a"⟩, ⟨40, "b-c-n"⟩, ⟨70, "d"⟩]) := by
   refine ⟨pexD_wf, ?_, ?_⟩
-  · obtain ⟨old, hf, _, _, _, t', e, _, _, hp, hs, _⟩ :=
+  · obtain ⟨t', e, _, _, _, _, hps, _⟩ :=
       pinsert_replace_spec pexD pexD_wf ⟨40, "n"⟩ ⟨⟨40, "b"⟩, by decide, rfl⟩
-    have : old = ⟨40, "b"⟩ := by rw [hfind] at hf; exact (Option.some.inj hf).symm
-    subst this
-    exact ⟨t', e, sorted_perm_unique hs (by decide) (hp.trans (by decide))⟩
-  · obtain ⟨old, hf, _, _, _, _, t', e, _, _, hp, hs, _⟩ :=
+    exact ⟨t', e, by rw [hps]; decide⟩
+  · obtain ⟨_, _, t', e, _, _, _, _, hps, _⟩ :=
       pinsert_merge_spec pexD pexD_wf ⟨40, "n"⟩ ⟨⟨40, "b"⟩, by decide, rfl⟩
-    have : old = ⟨40, "b"⟩ := by rw [hfind] at hf; exact (Option.some.inj hf).symm
-    subst this
-    exact ⟨t', e, sorted_perm_unique hs (by decide) (hp.trans (by decide))⟩
+    exact ⟨t', e, by rw [hps]; decide⟩
 
 /-- instance of `pdelete_spec` -/
 theorem pex_delete : pexD.deleteEntry ⟨40, "c"⟩ = .ok ⟨"P", [⟨10, "a"⟩, ⟨40, "b"⟩, ⟨70, "d"⟩], 0, 100⟩ ∧
@@ -1237,52 +1300,42 @@ theorem pex_delete : pexD.deleteEntry ⟨40, "c"⟩ = .ok ⟨"P", [⟨10, "a"⟩
   · apply (pdelete_spec pexD ⟨41, "c"⟩).2.1
     decide
 
-/-- evaluating a merge-insert on concrete lists without running the sort: the result is THE sorted arrangement -/
-theorem mergeIns_eq (ps : List (Pt Int)) (x : Pt Int) (l : List (Pt Int))
-    (hl : l.Pairwise (fun a b => Pt.le a b = true)) :
-    (firstAt ps x.t = none → l.Perm (ps ++ [⟨x.t, pyStrip x.l⟩]) → mergeIns ps x = l) ∧
-    (∀ old, firstAt ps x.t = some old → l.Perm (ps.erase old ++ [⟨x.t, pyJoin "-" [old.l, pyStrip x.l]⟩]) →
-      mergeIns ps x = l) := by
-  constructor
-  · intro h hp
-    apply sorted_perm_unique (mergeIns_sorted ps x) hl
-    simp only [mergeIns, h]
-    exact (C14.sortPts_perm _).trans hp.symm
-  · intro old h hp
-    apply sorted_perm_unique (mergeIns_sorted ps x) hl
-    simp only [mergeIns, h]
-    exact (C14.sortPts_perm _).trans hp.symm
+/-- evaluating a merge-insert on a concrete sorted list without running the sort -/
+theorem mergeIns_val (ps : List (Pt Int)) (x : Pt Int) (l : List (Pt Int))
+    (hs : ps.Pairwise (fun a b => Pt.le a b = true))
+    (hl : l = ps.filter (fun p => decide (p.t < x.t)) ++
+      ⟨x.t, pyJoin "-" ((ps.filter (fun p => p.t == x.t)).map (·.l) ++ [pyStrip x.l])⟩ ::
+        ps.filter (fun p => decide (x.t < p.t))) : mergeIns ps x = l := by
+  rw [hl]
+  exact sorted_place ps hs ⟨x.t, pyJoin "-" ((ps.filter (fun p => p.t == x.t)).map (·.l) ++ [pyStrip x.l])⟩ _
+    (mergeIns_sorted ps x) (mergeIns_perm ps x)
 
 /-- instance of `punion_exact` / `punion_spec`: one point per time in both operands; 40 is a common time -/
 theorem pex_union : ∃ r, pexT.union pexU = .ok r ∧ r.WF ∧ TimesNodup r.ps ∧
     r.ps = [⟨10, "a"⟩, ⟨25, "u"⟩, ⟨40, "b-v"⟩, ⟨70, "d"⟩, ⟨130, "w"⟩] ∧ r.lo = 0 ∧ r.hi = 130 := by
-  obtain ⟨r, e, hw, _, _, _, _, _, _, hnd, hlo, hhi⟩ := punion_spec pexT pexU pexT_wf pexU_wf
+  obtain ⟨r, e, hw, _, _, _, _, _, hnd, hlo, hhi⟩ := punion_spec pexT pexU pexT_wf pexU_wf
   refine ⟨r, e, hw, hnd pexT_nd, ?_, by rw [hlo]; decide, by rw [hhi]; decide⟩
   obtain ⟨e', hps⟩ := punion_eq_fold pexT pexU pexT_wf
   rw [e] at e'; cases e'
   rw [hps]
   simp only [pexU, List.foldl_cons, List.foldl_nil]
-  rw [(mergeIns_eq pexT.ps ⟨25, "u"⟩ [⟨10, "a"⟩, ⟨25, "u"⟩, ⟨40, "b"⟩, ⟨70, "d"⟩] (by decide)).1
-      (by decide) (by decide),
-    (mergeIns_eq _ ⟨40, "v"⟩ [⟨10, "a"⟩, ⟨25, "u"⟩, ⟨40, "b-v"⟩, ⟨70, "d"⟩] (by decide)).2 ⟨40, "b"⟩
-      (by decide) (by decide),
-    (mergeIns_eq _ ⟨130, "w"⟩ [⟨10, "a"⟩, ⟨25, "u"⟩, ⟨40, "b-v"⟩, ⟨70, "d"⟩, ⟨130, "w"⟩] (by decide)).1
-      (by decide) (by decide)]
+  rw [mergeIns_val pexT.ps ⟨25, "u"⟩ [⟨10, "a"⟩, ⟨25, "u"⟩, ⟨40, "b"⟩, ⟨70, "d"⟩] (by decide) (by decide),
+    mergeIns_val _ ⟨40, "v"⟩ [⟨10, "a"⟩, ⟨25, "u"⟩, ⟨40, "b-v"⟩, ⟨70, "d"⟩] (by decide) (by decide),
+    mergeIns_val _ ⟨130, "w"⟩ [⟨10, "a"⟩, ⟨25, "u"⟩, ⟨40, "b-v"⟩, ⟨70, "d"⟩, ⟨130, "w"⟩] (by decide) (by decide)]
 
-/-- **counterexamples to the property as worded** ("every point of either tier is present; points at the same time
-are merged with joined labels"), both on well-formed operands:
-(1) the receiver has two points at time 40 and the argument one: the argument's point is merged with the FIRST only,
-two points at time 40 remain and `(40,'c')` is not merged;
-(2) the argument has two points at time 25 and the receiver none: they are merged WITH EACH OTHER — neither `(25,'u')`
-nor `(25,'v')` is present, `(25,'u-v')` is.
+/-- **regressions of A24 on union** (the former `punion_counterexample`), both on well-formed operands:
+(1) the receiver has two points at time 40 and the argument one: all three are fused into `(40,'b-c-v')` — before the
+repair the code left `(40,'b-v')` AND `(40,'c')`;
+(2) the argument has two points at time 25 and the receiver none: "points at the same time are merged" — the result has
+the one point `(25,'u-v')` (unchanged by the repair).
 Replayed on the code: `PointTier('P',[(10,'a'),(40,'b'),(40,'c'),(70,'d')],0,100).union(PointTier('U',[(25,'u'),
-(40,'v'),(130,'w')],0,130))` has entries `[(10,'a'),(25,'u'),(40,'b-v'),(40,'c'),(70,'d'),(130,'w')]`;
+(40,'v'),(130,'w')],0,130))` has entries `[(10,'a'),(25,'u'),(40,'b-c-v'),(70,'d'),(130,'w')]`;
 `PointTier('P',[(10,'a'),(40,'b'),(70,'d')],0,100).union(PointTier('V',[(25,'u'),(25,'v')],0,130))` has
 `[(10,'a'),(25,'u-v'),(40,'b'),(70,'d')]` and span `[0, 100]` (the argument's maxTimestamp 130 is ignored). -/
-theorem punion_counterexample :
+theorem punion_dup_regression :
     pexD.WF ∧ pexU.WF ∧ pexT.WF ∧ pexV.WF ∧
     (∃ r, pexD.union pexU = .ok r ∧
-      r.ps = [⟨10, "a"⟩, ⟨25, "u"⟩, ⟨40, "b-v"⟩, ⟨40, "c"⟩, ⟨70, "d"⟩, ⟨130, "w"⟩]) ∧
+      r.ps = [⟨10, "a"⟩, ⟨25, "u"⟩, ⟨40, "b-c-v"⟩, ⟨70, "d"⟩, ⟨130, "w"⟩]) ∧
     (∃ r, pexT.union pexV = .ok r ∧ r.ps = [⟨10, "a"⟩, ⟨25, "u-v"⟩, ⟨40, "b"⟩, ⟨70, "d"⟩] ∧
       r.lo = 0 ∧ r.hi = 100) := by
   refine ⟨pexD_wf, pexU_wf, pexT_wf, pexV_wf, ?_, ?_⟩
@@ -1290,21 +1343,30 @@ theorem punion_counterexample :
     refine ⟨_, e, ?_⟩
     rw [hps]
     simp only [pexU, List.foldl_cons, List.foldl_nil]
-    rw [(mergeIns_eq pexD.ps ⟨25, "u"⟩ [⟨10, "a"⟩, ⟨25, "u"⟩, ⟨40, "b"⟩, ⟨40, "c"⟩, ⟨70, "d"⟩] (by decide)).1
-        (by decide) (by decide),
-      (mergeIns_eq _ ⟨40, "v"⟩ [⟨10, "a"⟩, ⟨25, "u"⟩, ⟨40, "b-v"⟩, ⟨40, "c"⟩, ⟨70, "d"⟩] (by decide)).2 ⟨40, "b"⟩
-        (by decide) (by decide),
-      (mergeIns_eq _ ⟨130, "w"⟩ [⟨10, "a"⟩, ⟨25, "u"⟩, ⟨40, "b-v"⟩, ⟨40, "c"⟩, ⟨70, "d"⟩, ⟨130, "w"⟩]
-        (by decide)).1 (by decide) (by decide)]
+    rw [mergeIns_val pexD.ps ⟨25, "u"⟩ [⟨10, "a"⟩, ⟨25, "u"⟩, ⟨40, "b"⟩, ⟨40, "c"⟩, ⟨70, "d"⟩] (by decide) (by decide),
+      mergeIns_val _ ⟨40, "v"⟩ [⟨10, "a"⟩, ⟨25, "u"⟩, ⟨40, "b-c-v"⟩, ⟨70, "d"⟩] (by decide) (by decide),
+      mergeIns_val _ ⟨130, "w"⟩ [⟨10, "a"⟩, ⟨25, "u"⟩, ⟨40, "b-c-v"⟩, ⟨70, "d"⟩, ⟨130, "w"⟩] (by decide)
+        (by decide)]
   · obtain ⟨e, hps⟩ := punion_eq_fold pexT pexV pexT_wf
     obtain ⟨_, hlo, hhi⟩ := fold_mergeT_wf pexV.ps pexT pexT_wf
     refine ⟨_, e, ?_, by rw [hlo]; decide, by rw [hhi]; decide⟩
     rw [hps]
     simp only [pexV, List.foldl_cons, List.foldl_nil]
-    rw [(mergeIns_eq pexT.ps ⟨25, "u"⟩ [⟨10, "a"⟩, ⟨25, "u"⟩, ⟨40, "b"⟩, ⟨70, "d"⟩] (by decide)).1
-        (by decide) (by decide),
-      (mergeIns_eq _ ⟨25, "v"⟩ [⟨10, "a"⟩, ⟨25, "u-v"⟩, ⟨40, "b"⟩, ⟨70, "d"⟩] (by decide)).2 ⟨25, "u"⟩
-        (by decide) (by decide)]
+    rw [mergeIns_val pexT.ps ⟨25, "u"⟩ [⟨10, "a"⟩, ⟨25, "u"⟩, ⟨40, "b"⟩, ⟨70, "d"⟩] (by decide) (by decide),
+      mergeIns_val _ ⟨25, "v"⟩ [⟨10, "a"⟩, ⟨25, "u-v"⟩, ⟨40, "b"⟩, ⟨70, "d"⟩] (by decide) (by decide)]
+
+/-- instance of the general clause of `punion_spec` at a time with two points in each operand:
+all four labels are joined, the receiver's first -/
+theorem pex_union_four : ∃ r, (⟨"P", [⟨40, "b"⟩, ⟨40, "b-a"⟩], 0, 100⟩ : PTier Int).union
+      ⟨"U", [⟨40, "z"⟩, ⟨40, "zz"⟩], 0, 100⟩ = .ok r ∧ r.ps.filter (fun p => p.t == 40) = [⟨40, "b-b-a-z-zz"⟩] := by
+  have h1 : (⟨"P", [⟨40, "b"⟩, ⟨40, "b-a"⟩], 0, 100⟩ : PTier Int).WF := by
+    refine ⟨?_, ?_, ?_, ?_, ?_⟩ <;> simp [Pt.le] <;> decide
+  have h2 : (⟨"U", [⟨40, "z"⟩, ⟨40, "zz"⟩], 0, 100⟩ : PTier Int).WF := by
+    refine ⟨?_, ?_, ?_, ?_, ?_⟩ <;> simp [Pt.le] <;> decide
+  obtain ⟨r, e, _, _, _, _, hsome, _⟩ := punion_spec _ _ h1 h2
+  refine ⟨r, e, ?_⟩
+  rw [hsome 40 ⟨⟨40, "z"⟩, by decide, rfl⟩]
+  decide
 
 /-- instance of `pappend_order` where the concatenation is already in order -/
 theorem pex_append : ∃ r, pexT.appendTier pexU = .ok r ∧ r.WF ∧
@@ -1347,22 +1409,20 @@ theorem pex_history : (pirun pexT pexOps).WF ∧ TimesNodup (pirun pexT pexOps).
 #guard (pexT.insertEntry ⟨40, " n "⟩ .merge).toOption.map (fun t => (t.ps, t.lo, t.hi)) ==
   some ([⟨10, "a"⟩, ⟨40, "b-n"⟩, ⟨70, "d"⟩], 0, 100)
 #guard (match pexT.insertEntry ⟨40, "n"⟩ .error with | .error .CollisionError => true | _ => false)
--- two points at the time of the new one: only the first is replaced / merged
-#guard (pexD.insertEntry ⟨40, "n"⟩ .replace).toOption.map (·.ps) ==
-  some [⟨10, "a"⟩, ⟨40, "c"⟩, ⟨40, "n"⟩, ⟨70, "d"⟩]
-#guard (pexD.insertEntry ⟨40, "n"⟩ .merge).toOption.map (·.ps) ==
-  some [⟨10, "a"⟩, ⟨40, "b-n"⟩, ⟨40, "c"⟩, ⟨70, "d"⟩]
+-- two points at the time of the new one: both are replaced / merged (A24)
+#guard (pexD.insertEntry ⟨40, "n"⟩ .replace).toOption.map (·.ps) == some [⟨10, "a"⟩, ⟨40, "n"⟩, ⟨70, "d"⟩]
+#guard (pexD.insertEntry ⟨40, "n"⟩ .merge).toOption.map (·.ps) == some [⟨10, "a"⟩, ⟨40, "b-c-n"⟩, ⟨70, "d"⟩]
 #guard (pexD.deleteEntry ⟨40, "c"⟩).toOption.map (·.ps) == some [⟨10, "a"⟩, ⟨40, "b"⟩, ⟨70, "d"⟩]
 #guard (match pexD.deleteEntry ⟨41, "c"⟩ with | .error .ValueError => true | _ => false)
 #guard (pexT.union pexU).toOption.map (fun t => (t.name, t.ps, t.lo, t.hi)) ==
   some ("P", [⟨10, "a"⟩, ⟨25, "u"⟩, ⟨40, "b-v"⟩, ⟨70, "d"⟩, ⟨130, "w"⟩], 0, 130)
 #guard (pexD.union pexU).toOption.map (·.ps) ==
-  some [⟨10, "a"⟩, ⟨25, "u"⟩, ⟨40, "b-v"⟩, ⟨40, "c"⟩, ⟨70, "d"⟩, ⟨130, "w"⟩]
+  some [⟨10, "a"⟩, ⟨25, "u"⟩, ⟨40, "b-c-v"⟩, ⟨70, "d"⟩, ⟨130, "w"⟩]
 #guard (pexT.union pexV).toOption.map (fun t => (t.ps, t.lo, t.hi)) ==
   some ([⟨10, "a"⟩, ⟨25, "u-v"⟩, ⟨40, "b"⟩, ⟨70, "d"⟩], 0, 100)
--- the merged point can overtake its neighbour at the same time, and the next merge then meets the other one
+-- two points at one time in each operand: one point, all four labels
 #guard ((⟨"P", [⟨40, "b"⟩, ⟨40, "b-a"⟩], 0, 100⟩ : PTier Int).union ⟨"U", [⟨40, "z"⟩, ⟨40, "zz"⟩], 0, 100⟩).toOption.map
-  (·.ps) == some [⟨40, "b-a-zz"⟩, ⟨40, "b-z"⟩]
+  (·.ps) == some [⟨40, "b-b-a-z-zz"⟩]
 #guard (pexT.appendTier pexU).toOption.map (fun t => (t.ps, t.lo, t.hi)) ==
   some ([⟨10, "a"⟩, ⟨40, "b"⟩, ⟨70, "d"⟩, ⟨125, "u"⟩, ⟨140, "v"⟩, ⟨230, "w"⟩], 0, 230)
 #guard (pexA.appendTier pexB).toOption.map (fun t => (t.ps, t.lo, t.hi)) ==
